@@ -35,10 +35,17 @@ template <class Algo> struct AlgoHooks {
 
 template <class T> struct IsVoidData : std::is_same<T, void_data> {};
 
+struct NoTop {
+    template <class C> NoTop(const C&, long) {}
+    template <class T> void execute(T&, int) {}
+};
+
 // defaults shared by every configuration: how the prototype kernel of the executor is made
 struct CfgCommon {
     static constexpr bool kernelCtorOnly = false;
     template <class PK, class Conf> static PK make(const Conf& c) { return PK(c); }
+    template <class PK> using TopAlgo = NoTop;
+    template <class PK> using TopAlgoTsm = NoTop;
 };
 
 template <class CellGroups>
@@ -106,7 +113,7 @@ public:
     using TreeTsm = TbfTreeTsm<Real, Real, Cfg::NbData, typename Cfg::Rhs, Cfg::NbRhs, typename Cfg::Mult, typename Cfg::Loc, Space>;
     using Tree = typename std::conditional<Tsm, TreeTsm, TreeSingle>::type;
     using Algo = typename AlgoSelect<Cfg, Exec>::type;
-    using Top = typename Cfg::template TopAlgo<PK>;
+    using Top = typename std::conditional<Tsm, typename Cfg::template TopAlgoTsm<PK>, typename Cfg::template TopAlgo<PK>>::type;
 
 private:
     Scenario sc;
@@ -175,12 +182,12 @@ public:
             if (sc.ctorWithKernel) { PK proto = Cfg::template make<PK>(*conf); algo.reset(new Algo(*conf, proto, sc.upper)); }
             else algo.reset(AlgoHooks<Algo>::create(*conf, sc.upper));
         }
-        if constexpr (Cfg::periodic && !Tsm) { if (sc.topLevels >= -1) top.reset(new Top(*conf, sc.topLevels)); }
+        if constexpr (Cfg::periodic) { if (sc.topLevels >= -1) top.reset(new Top(*conf, sc.topLevels)); }
     }
     void destroyAlgo() override { algo.reset(); top.reset(); }
     void execute(int flags) override { algo->execute(*tree, flags); }
     void topExecute(int flags) override {
-        if constexpr (Cfg::periodic && !Tsm) {
+        if constexpr (Cfg::periodic) {
             if (top) { g_ctx->topTreeCall = true; top->execute(*tree, flags); g_ctx->topTreeCall = false; }
         } else { (void)flags; }
     }
@@ -216,10 +223,6 @@ public:
     bool isTaskBased() const override { return execIsTask(Exec); }
 };
 
-struct NoTop {
-    template <class C> NoTop(const C&, long) {}
-    template <class T> void execute(T&, int) {}
-};
 
 }  // namespace tbfsim
 #endif
